@@ -668,6 +668,14 @@ def run(ctx):
     searched = 0
     if ctx.is_unshown() and not ctx.has_violation():
         extra = gen_cov_cases(ctx.rng, 200, 50)
+        # model-guided small exhaustive enumeration: every 2-sample / 2-feature data set over {-1, 0, 1}
+        vals = [Fraction(-1), Fraction(0), Fraction(1)]
+        for a in vals:
+            for b in vals:
+                for c2 in vals:
+                    for d2 in vals:
+                        extra.append({"kind": "COV", "D": 2, "N": 2, "X": [[a, b], [c2, d2]], "style": "int",
+                                      "exact": True})
         for j in range(150):
             extra.append(gen_emb(ctx.rng, "dense", "small" if j % 8 else "large"))
         for j in range(30):
@@ -675,6 +683,20 @@ def run(ctx):
         verdicts += evaluate(ctx, exe, mexe, extra, st)
         cases += extra
         searched = len(extra)
+    # thorough tier: the same PCA cases once more through a build with Eigen's own index assertions on
+    # (an out-of-range block expression such as rightCols(d) with d > cols is not always seen by ASan)
+    eigen_dbg = 0
+    if not quick and not ctx.has_violation():
+        try:
+            exe2 = ctx.cpp("harness/c06.cpp", name="c06_eigdbg", eigen_debug=True, extra=["-O0", "-g1"])
+            embs = [c for c in cases if c["kind"] == "EMB"]
+            for c, r in zip(embs, run_impl(ctx, exe2, embs)):
+                eigen_dbg += 1
+                if r["crashed"]:
+                    ctx.violation(case_json(c), "with Eigen's assertions enabled (-DTAPKEE_DEBUG -UNDEBUG) PCA aborts on "
+                                                "this input: " + crash_text(r["crashed"]))
+        except vlib.BuildError as ex:
+            ctx.unshown("the Eigen-assertion build of the harness failed: " + str(ex)[-300:])
     for key in ("pca-dense", "pca-randomized"):
         if st.ok.get(key, 0) == 0 and not ctx.has_violation():
             ctx.unshown("no public-API case of %s could be evaluated" % key)
@@ -711,7 +733,8 @@ def run(ctx):
                    "api_cases_evaluated": st.ok, "skipped": st.skipped, "spec_decisions_run": st.spec_calls,
                    "exact_model_comparisons": st.exact_compared,
                    "agreement_tests": {"gram": st.agree_gram, "column_sign": st.agree_sign},
-                   "returned_matrix_equals_pre_F8_model": st.old_model_matches, "search_phase_cases": searched},
+                   "returned_matrix_equals_pre_F8_model": st.old_model_matches, "search_phase_cases": searched,
+                   "pca_cases_rerun_with_eigen_assertions": eigen_dbg},
         trusted_base=TRUSTED,
         assumptions=["feature vectors are finite doubles of the announced dimension, N >= 1",
                      "target_dimension <= min(D, N-1) (larger values are the open finding F21, owned by C01)",
